@@ -1,6 +1,7 @@
 package main
 
 import (
+	"runtime/debug"
 	"encoding/json"
 	"fmt"
 	"os"
@@ -253,7 +254,30 @@ func main() {
 	}
 
 	// 2. correspondence
-	batches := p.Gen(ctx)
+	var batches []*Batch
+	func() {
+		// safety net: a panic raised inside the library while the harness was calling it outside a recover() is a
+		// violation of "result or error, never a panic" (reported with the stack), not a failure of the harness
+		defer func() {
+			if pv := recover(); pv != nil {
+				st := string(debug.Stack())
+				lib := false
+				for _, ln := range strings.Split(st, "\n") {
+					if strings.HasPrefix(ln, "panic(") || strings.HasPrefix(ln, "runtime.") || strings.HasPrefix(ln, "\t") || strings.HasPrefix(ln, "goroutine ") || strings.Contains(ln, "debug.Stack") || strings.HasPrefix(ln, "main.main.func") || ln == "" {
+						continue
+					}
+					lib = strings.HasPrefix(ln, "github.com/onheap/eval.")
+					break
+				}
+				if !lib {
+					fmt.Fprintf(os.Stderr, "INFRASTRUCTURE: harness panic: %v\n%s\n", pv, st)
+					os.Exit(2)
+				}
+				ctx.Direct = append(ctx.Direct, DirectViolation{What: fmt.Sprintf("the library panicked: %v", pv), Sig: "library-panic", Sample: map[string]interface{}{"stack": tail(st, 2500)}})
+			}
+		}()
+		batches = p.Gen(ctx)
+	}()
 	var mismatches []Mismatch
 	evals, distinct := 0, 0
 	hist := map[string]int{}
